@@ -133,7 +133,9 @@ func onResourceRuleUpdate(res string, rawResRules []*Rule) (err error) {
 		ruleMap[res] = validResRules
 	}
 	rwMux.Unlock()
-	currentRules[res] = rawResRules
+	// keep a copy of the list: the caller may go on using its slice (replace an element and load it
+	// again), and a slice compared with itself always looks unchanged
+	currentRules[res] = append([]*Rule(nil), rawResRules...)
 	logging.Debug("[Isolation onResourceRuleUpdate] Time statistic(ns) for updating isolation rule", "timeCost", util.CurrentTimeNano()-start)
 	logging.Info("[Isolation] load resource level rules", "resource", res, "validResRules", validResRules)
 	return nil
